@@ -8,7 +8,8 @@
 From Coq Require Import List NArith Bool.
 From Verif.Common Require Import Labels Packet.
 From Coq Require Import Sorting.Permutation.
-From Verif.C29 Require Import Model Spec ProofsSel ProofsPorts ProofsMain ProofsOrder ProofsValid Proofs.
+From Verif.Common Require PolicyRef.
+From Verif.C29 Require Import Model Spec ProofsSel ProofsPorts ProofsMain ProofsOrder ProofsValid ProofsBridge Proofs.
 Import ListNotations.
 Open Scope N_scope.
 
@@ -110,6 +111,25 @@ Theorem c29_order_irrelevant : forall infer nps qs cl c,
   cal_allows qs (cparty_of cl (c_src c)) (cparty_of cl (c_dst c)) (c_proto c) (c_dport c) = k8s_allows nps cl c.
 Proof. exact order_irrelevant. Qed.
 Print Assumptions c29_order_irrelevant.
+
+(* Bridge to the shared reference semantics Common/PolicyRef.v (felix/proto rules over IP sets): with the IP sets
+   defined from the selectors / named ports (what the calculation graph has to compute; `who` maps an address to
+   the endpoint owning it), a converted rule matches a packet in the sense of Spec.v iff its proto counterpart
+   matches it in the sense of PolicyRef.rule_matches; and every rule the conversion emits is in that fragment. *)
+Theorem c29_rule_bridge : forall (who : N -> option cep) (intern : setspec -> N) (resolve : N -> option setspec),
+  (forall s, resolve (intern s) = Some s) ->
+  forall (r : crule) (p : packet),
+  bridgeable r = true ->
+  cal_rule_matches r (pkt_src who p) (pkt_dst who p) (pk_proto p) (pk_dport p)
+  = PolicyRef.rule_matches (the_ipsets who resolve) (to_ref intern r) p.
+Proof. exact rule_bridge. Qed.
+Print Assumptions c29_rule_bridge.
+
+Theorem c29_converted_rules_bridgeable : forall ingress ns rs cr,
+  forallb (fun r => forallb peer_family_ok (nr_peers r)) rs = true ->
+  In cr (conv_rules ingress ns rs) -> bridgeable cr = true.
+Proof. exact conv_rules_bridgeable. Qed.
+Print Assumptions c29_converted_rules_bridgeable.
 
 (* The hypotheses beyond API validation are necessary: *)
 (* (1) pinned tree: a policy without policyTypes but with egress rules is converted to an ingress-only policy,
